@@ -71,6 +71,16 @@ Theorem C10_one_batch_from_source : forall (A B : Type) (dec : A -> B) items b,
   raf_tbl dec items = Ok b <-> (exists x xs, items = [SiChunk (x :: xs)] /\ b = dec x).
 Proof. exact (fun A B => @raf_ok_iff_from_source A B). Qed.
 
+From Peppi Require Proofs.ReaderTies Proofs.WriterTies.
+(* the reader model these theorems speak about is the one regenerated from the source on this run: one-shot read, every incremental
+   entry point, the event dispatch with the splitter, the Game Start wiring, the metadata reader (Proofs/ReaderTies.v reader_tied) *)
+Theorem C10_reader_is_the_source : ReaderTies.reader_tied.
+Proof. exact ReaderTies.reader_tied_holds. Qed.
+(* the writer model these theorems speak about is the one regenerated from the source on this run: the statement sequence of write(),
+   the payload-size table, the frame counts, the frame writer, the gecko blocks, the metadata writer (Proofs/WriterTies.v writer_tied) *)
+Theorem C10_writer_is_the_source : WriterTies.writer_tied.
+Proof. exact WriterTies.writer_tied_holds. Qed.
+
 Print Assumptions C10_skip_read.
 Print Assumptions C10_skip_equals_full.
 Print Assumptions C10_skip_result_writable.
@@ -80,3 +90,5 @@ Print Assumptions C10_written_entries_from_source.
 Print Assumptions C10_read_names_from_source.
 Print Assumptions C10_slpp_skip_branch_from_source.
 Print Assumptions C10_one_batch_from_source.
+Print Assumptions C10_reader_is_the_source.
+Print Assumptions C10_writer_is_the_source.
